@@ -62,9 +62,9 @@ CLAIMED.update({
  },
  "C13": {
   "engine": "ledgerh+CheckLedger",
-  "technique": "Coq: parking/reporting, bounds, retry = admission path, invalid never admitted, nothing admitted twice (invariants over all sequences); permutation confluence decided by the model-vs-code acceptor over seeded (quick) / many (thorough) delivery permutations plus a final-ledger monitor against parents-first delivery",
-  "text": "C13_unknown_parent_reported_and_parked, C13_buffer_and_retry_bounds (constants regenerated from the source), C13_retry_is_admission_path, C13_invalid_never_admitted, C13_nothing_admitted_twice, C13_retry_respects_funds. C13_order_independence_refuted: the final ledger DOES depend on the order of independent vertices when a heavy tip raises the node's weight before a light tip is validated (KNOWN-FINDING not-confluent:weight-window, reproduced on the real code on every run). For histories with ordinary weights order-independence is not proved in Coq: it is checked by running the real ledger over permutations of a valid vertex set with duplicates, interleaved proposals and retries, comparing the final vertex/edge/index sets with parents-first delivery, and every step with the model.",
-  "note": LEDGER_NOTE + " Confluence is refuted in general (weight window) and, for ordinary weights, validated on permutations, not proved (partial).", "design_ref": "6 C13",
+  "technique": "Coq: parking/reporting, bounds, retry = admission path, invalid never admitted, nothing admitted twice (invariants over all sequences); liveness of a parked vertex and completeness of validateLeaf; order-independence proved by refinement to an abstract (admitted, queue) machine with a pass-counting drain argument, for every closed set delivered in any order with ticks anywhere within the buffer/retry bounds, under the premise that no examined tip is refused along the run; kernel-checked counterexample when a tip IS refused (weight window); model-vs-code acceptor over seeded (quick) / many (thorough) delivery permutations plus a final-ledger monitor against parents-first delivery",
+  "text": "C13_unknown_parent_reported_and_parked, C13_buffer_and_retry_bounds (constants regenerated from the source), C13_retry_is_admission_path, C13_invalid_never_admitted, C13_nothing_admitted_twice, C13_retry_respects_funds, C13_parked_vertex_admitted_once_parents_present, C13_valid_parent_passes (validateLeaf accepts every verified, covered tip inside the weight window). C13_any_order_all_admitted / C13_any_two_orders_agree: any delivery order of a new, parent-closed set S with retry ticks anywhere (|S| < maxArraySize, 1 + ticks + |S| <= maxRepeats) ends - after drain_k more ticks - with an empty buffer and exactly the old graph plus S (declared edges, index), hence the same ledger as parents-first delivery, provided no examined parent tip is refused along the run (boolean fine_runb evaluated on the run; Example confluence_instance meets all premises). C13_order_independence_refuted: without that premise the final ledger DOES depend on the order of independent vertices - a heavy tip raises the node's weight before a light tip is validated (KNOWN-FINDING not-confluent:weight-window, reproduced on the real code on every run). The real ledger is run over permutations of a valid vertex set with duplicates, interleaved proposals and retries, comparing the final vertex/edge/index sets with parents-first delivery, and every step with the model.",
+  "note": LEDGER_NOTE + " The no-refusal premise of the confluence theorem is a property of the run (decidable by evaluation, implied by C13_valid_parent_passes at each step), not derived from a static condition on S alone; without it confluence is refuted (weight window).", "design_ref": "6 C13",
  },
  "C14": {
   "engine": "ledgerh+CheckLedger",
@@ -91,9 +91,9 @@ CLAIMED.update({
 CLAIMED.update({
  "C19": {
   "engine": "purefh+coqc",
-  "technique": "Coq round-trip theorems for the wire mapping (incl. uint64/int64 timestamp arithmetic) and for the msgpack uint64 / timestamp (4/8/12-byte ext, 34-bit packing) encodings over all values; byte-exact differential of the modelled encoders against msgpack.Marshal, field-wise round-trip monitors for protobuf and msgpack on the boundary sweep",
-  "text": "C19_proto_roundtrip (all fields, all int64-nanosecond instants), C19_msgpack_uint64_roundtrip (all 2^64 values), C19_msgpack_time_roundtrip (all int64 seconds, all nanoseconds; proved with shifts as * and / by powers of two and big-endian lemmas). The harness drives the real mapping functions, proto.Marshal/Unmarshal and both msgpack libraries over the property's boundary values and compares every signed field, both signed messages and the verification result; the modelled byte encodings are compared byte-for-byte with the library output. KNOWN-FINDINGs: non-UTF-8 text cannot go on the wire; a transaction dated exactly at the epoch is refused by wire ingress.",
-  "note": "Partial: msgpack struct framing (map/str/bin headers) and protobuf's own encoding are library code exercised by the monitors, not modelled.", "design_ref": "6 C19",
+  "technique": "Coq round-trip theorems for the wire mapping (incl. uint64/int64 timestamp arithmetic) and for the WHOLE msgpack form of Transaction, Vertex and Melange (fixmap, fixstr keys, fixstr/str8/16/32, nil/bin8/16/32, ext -1 time in its 4/8/12-byte forms, 0xcf uint64) over all field contents, with injectivity; the struct layout is regenerated from the Go struct tags on every run and compared by a kernel-evaluated theorem; byte-exact differential of the modelled encoders against msgpack.Marshal, field-wise round-trip and stability monitors for protobuf and msgpack on the boundary sweep",
+  "text": "C19_proto_roundtrip (all fields, all int64-nanosecond instants); C19_msgpack_uint64_roundtrip, C19_msgpack_time_roundtrip; C19_msgpack_layout_is_the_source_layout (tags, order and kinds of the three structs as declared in the source now), C19_msgpack_encoders_follow_layout, C19_msgpack_transaction_roundtrip / C19_msgpack_vertex_roundtrip (every string/byte-string length below 2^32 incl. nil slices, any bytes, all 2^64 integers, all int64 seconds and nanoseconds; whatever follows in the input), C19_msgpack_encoding_injective. The harness drives the real mapping functions, proto.Marshal/Unmarshal and both msgpack libraries over the property's boundary values and compares every signed field, both signed messages and the verification result; enc_vtx / enc_trx are compared byte-for-byte with the library output and dec_vtx / dec_trx of the real bytes with the generated value (64 kB fields as regenerated pattern segments). KNOWN-FINDINGs: non-UTF-8 text cannot go on the wire; a transaction dated exactly at the epoch is refused by wire ingress.",
+  "note": "Partial: protobuf's own wire encoding and the shamaton msgpack DECODER are library code exercised by the round-trip monitors, not modelled (the model decoder is proved against the model encoder; the model encoder is byte-exact against the real encoder).", "design_ref": "6 C19",
  },
 })
 CLAIMED.update({
@@ -121,7 +121,7 @@ CLAIMED.update({
 CLAIMED.update({
  "C15": {
   "engine": "rpch+extraction",
-  "technique": "Coq: handlers as programs over message shapes (every length, every presence pattern, every dependency outcome); a static analysis proved sound (safe_sound, quiet_sound) accepts all 17 handlers => no panic for any shape, clean rejections; kernel-checked counterexample for Confirm/Reject (known finding); exhaustive shape-class enumeration on the real handlers vs the extracted model",
+  "technique": "Coq: handlers as programs over message shapes (every length, every presence pattern, every dependency outcome); a static analysis proved sound (safe_sound, quiet_sound) accepts all 18 handlers (17 RPCs + the peer-vertex fetch ingress) => no panic for any shape, clean rejections; kernel-checked counterexample for Confirm/Reject (known finding); exhaustive shape-class enumeration on the real handlers vs the extracted model",
   "text": "C15_analysis_sound + C15_no_handler_panics: none of the notary, gossip and webhook handlers nor the peer-vertex ingress can panic, for all field lengths, sub-message presence patterns and dependency outcomes (the only crash primitives of these handlers are the fixed-size conversions and sub-message dereferences, which the guards added by fix 61edbd9 dominate). C15_rejected_request_mutates_nothing for 15 handlers; C15_confirm_reject_refuted (KNOWN-FINDING). The harness enumerates the full product of shape classes x dependency outcomes (~2.2e5 cases) on the real handler objects under recover() and compares outcome and mutation list with the model on every case.",
   "note": "The handler programs are hand-transcribed (order of guards, conversions, dependency calls); the exhaustive differential run is what ties them to the code. Dependencies are stubs: crashes inside the real ledger / verifier are covered by C09 / C04 / the createleaf-panic finding.", "design_ref": "6 C15",
  },
